@@ -293,12 +293,68 @@ def _probe() -> list[tuple[str, str, str]]:
     return out
 
 
+def _probe_stateless() -> bool:
+    """`http_capabilities` answers from the response of the probe it makes now: no decorator (memoisation), no `global`, a
+    single `return` that is the `HttpServerCapabilities(...)` constructor call itself, no store into / mutating call on
+    anything that is not a local variable, and no module-level mutable container next to it that the function mentions."""
+    tree = ast.parse((REPO / CLIENT).read_text())
+    fn = _func(tree, "http_capabilities")
+    if fn.decorator_list:
+        return False
+    local = {a.arg for a in fn.args.args + fn.args.kwonlyargs}
+    for n in ast.walk(fn):
+        if isinstance(n, (ast.Global, ast.Nonlocal)):
+            return False
+        if isinstance(n, ast.Name) and isinstance(n.ctx, ast.Store):
+            local.add(n.id)
+        if isinstance(n, (ast.Import, ast.ImportFrom)):
+            local.update((a.asname or a.name).split(".")[0] for a in n.names)
+    rets = [n for n in ast.walk(fn) if isinstance(n, ast.Return)]
+    if len(rets) != 1 or not (isinstance(rets[0].value, ast.Call) and ast.unparse(rets[0].value.func) == "HttpServerCapabilities"):
+        return False
+
+    def root(e: ast.expr) -> str | None:
+        while isinstance(e, (ast.Attribute, ast.Subscript)):
+            e = e.value
+        return e.id if isinstance(e, ast.Name) else None
+
+    mut = {"append", "add", "setdefault", "pop", "popitem", "update", "clear", "extend", "insert", "remove", "discard", "__setitem__"}
+    for n in ast.walk(fn):
+        targets: list[ast.expr] = []
+        if isinstance(n, ast.Assign):
+            targets = list(n.targets)
+        elif isinstance(n, (ast.AnnAssign, ast.AugAssign)):
+            targets = [n.target]
+        elif isinstance(n, ast.Delete):
+            targets = list(n.targets)
+        for t in targets:
+            if isinstance(t, (ast.Attribute, ast.Subscript)) and root(t) not in local:
+                return False
+        if isinstance(n, ast.Call) and isinstance(n.func, ast.Attribute) and n.func.attr in mut and root(n.func.value) not in local:
+            return False
+    # module-level containers the function refers to (a cache would be one)
+    containers = set()
+    for st in tree.body:
+        tgt = val = None
+        if isinstance(st, ast.Assign) and len(st.targets) == 1 and isinstance(st.targets[0], ast.Name):
+            tgt, val = st.targets[0].id, st.value
+        elif isinstance(st, ast.AnnAssign) and isinstance(st.target, ast.Name) and st.value is not None:
+            tgt, val = st.target.id, st.value
+        if tgt and isinstance(val, (ast.Dict, ast.List, ast.Set)) or (
+                tgt and isinstance(val, ast.Call) and ast.unparse(val.func).split(".")[-1] in
+                ("dict", "list", "set", "OrderedDict", "defaultdict", "WeakValueDictionary", "LRUCache")):
+            containers.add(tgt)
+    used = {n.id for n in ast.walk(fn) if isinstance(n, ast.Name)}
+    return not (containers & used)
+
+
 def emit() -> dict[str, str]:
     rows = _table()
     order, enc_ok = _encodings_shape()
     stamps, cache, installed = _middleware_shape()
     names, fams = _other_headers()
     probe = _probe()
+    probe_stateless = _probe_stateless()
     nl = ",\n"
     row_txt = nl.join(
         f"  {{ const := \"{c}\", header := {lean_chars(h)}, conds := [{', '.join('.' + x for x in conds)}], value := {v} }}"
@@ -366,6 +422,9 @@ def otherHeaders : List (List Char) := [
 ]
 /-- literal heads of dynamically named headers written elsewhere (`f"{{ECHO_HEADER_PREFIX}}{{name}}"`) -/
 def otherHeaderFamilies : List (List Char) := [{", ".join(lean_chars(x) for x in fams)}]
+
+/-- `http_capabilities` keeps nothing between calls: one `return HttpServerCapabilities(...)`, no memo, no module-level store -/
+def probeStateless : Bool := {lean_bool(probe_stateless)}
 
 inductive ProbeKind where
   | optInt      -- `int(raw)` under `suppress(ValueError)` when present, else `None`
